@@ -1800,3 +1800,265 @@ Theorem good_is_expected m nodes script : plans_ok nodes script = true ->
   expected false m (List.length nodes) true script = Some (spec_stream (script_pages script)) /\
   known_ignored m (List.length nodes) script = false.
 Proof. intros Hp Hg. split; [apply good_expected|apply good_not_known]; assumption. Qed.
+
+(* ===== part K: client timeout striking earlier than scripted ===== *)
+(* ---------- the early-timeout tolerance of the T cases ---------- *)
+Lemma early_timeouts_shape : forall script sc, In sc (early_timeouts script) ->
+  exists pre ps rest i, script = pre ++ ps :: rest /\ sc = pre ++ with_timeout i ps :: rest /\
+    (i <= List.length (ps_faults ps))%nat.
+Proof.
+  induction script as [|ps rest IH]; intros sc Hin; [destruct Hin|].
+  cbn [early_timeouts] in Hin. apply in_app_or in Hin as [Hin|Hin].
+  - apply in_map_iff in Hin as (i & <- & Hi). apply in_seq in Hi.
+    exists [], ps, rest, i. repeat split; lia.
+  - destruct (existsb is_timeout (ps_faults ps)); [destruct Hin|].
+    apply in_map_iff in Hin as (sc' & <- & Hin').
+    destruct (IH sc' Hin') as (pre & ps' & rest' & i & -> & -> & Hi).
+    exists (ps :: pre), ps', rest', i. repeat split; [exact Hi].
+Qed.
+
+Lemma with_timeout_pages pre ps rest i :
+  script_pages (pre ++ with_timeout i ps :: rest) = script_pages (pre ++ ps :: rest).
+Proof. unfold script_pages. rewrite !map_app. reflexivity. Qed.
+
+Lemma with_timeout_plans nodes pre ps rest i : plans_ok nodes (pre ++ ps :: rest) = true ->
+  plans_ok nodes (pre ++ with_timeout i ps :: rest) = true.
+Proof.
+  unfold plans_ok. intros H. apply andb_true_iff in H as [H1 H2]. rewrite H1. cbn [andb].
+  rewrite forallb_app in *. apply andb_true_iff in H2 as [Ha Hb]. rewrite Ha. cbn [andb forallb] in *.
+  exact Hb.
+Qed.
+
+(* an accepted early-timeout observation is a full read of the SAME pages under an environment
+   that differs from the script only by a client timeout striking an earlier attempt; for that
+   environment the property predicate holds *)
+Theorem early_timeout_sound m nodes script ctor oi ok :
+  accept_full_timeout m script ctor oi ok = true -> plans_ok nodes script = true ->
+  exists sc, In sc (early_timeouts script) /\ plans_ok nodes sc = true /\
+    script_pages sc = script_pages script /\
+    (known_ignored m (List.length nodes) sc = false ->
+       prop_full_ok m (List.length nodes) sc oi ok = true).
+Proof.
+  unfold accept_full_timeout. intros H Hpl. apply existsb_exists in H as (sc & Hin & Ha).
+  apply andb_true_iff in Ha as [Ha _]. exists sc. split; [exact Hin|].
+  destruct (early_timeouts_shape _ _ Hin) as (pre & ps & rest & i & -> & -> & _).
+  split; [apply with_timeout_plans; exact Hpl|]. split; [apply with_timeout_pages|].
+  intros Hk. eapply accept_full_prop; [exact Ha|apply with_timeout_plans; exact Hpl|exact Hk].
+Qed.
+
+(* which streams that admits: when the pages before the struck one return rows and announce
+   more, and the faults before the struck attempt are passed, the read delivers the rows of the
+   pages before it, the timeout error, the end *)
+Lemma spec_attempts_cut : forall fs i left resp,
+  spec_attempts (firstn i fs ++ [FTimeout]) left resp = PoErr e_timeout \/
+  spec_attempts (firstn i fs ++ [FTimeout]) left resp = spec_attempts fs left resp.
+Proof.
+  induction fs as [|f fs IH]; intros i left resp.
+  - destruct i; cbn; left; reflexivity.
+  - destruct i as [|i]; [left; reflexivity|]. cbn [firstn app spec_attempts].
+    destruct f as [|e d| |].
+    + destruct left; [right; reflexivity|apply IH].
+    + destruct d; try (right; reflexivity); [apply IH|]. destruct left; [right; reflexivity|apply IH].
+    + right; reflexivity.
+    + apply IH.
+Qed.
+
+Theorem early_timeout_stream m n : forall pre ps rest i first,
+  (forall q, In q pre -> exists rows st, spec_page m n q = PoResp (RRows rows (Some st))) ->
+  spec_page m n (with_timeout i ps) = PoErr e_timeout ->
+  expected true m n first (pre ++ with_timeout i ps :: rest) =
+    Some (spec_error_stream (script_pages (pre ++ ps :: rest)) (List.length pre) e_timeout).
+Proof.
+  induction pre as [|q pre IH]; intros ps rest i first Hpre Hps.
+  - cbn [app expected List.length]. rewrite Hps. reflexivity.
+  - cbn [app expected List.length]. destruct (Hpre q (or_introl eq_refl)) as (rows & st & E). rewrite E.
+    rewrite (IH ps rest i false); [|intros q' Hq'; apply Hpre; right; exact Hq'|exact Hps].
+    unfold spec_error_stream. apply spec_page_resp in E.
+    cbn [script_pages map firstn]. rewrite <- E. cbn [resp_page fst concat].
+    fold (script_pages (pre ++ ps :: rest)). rewrite map_app, <- app_assoc. reflexivity.
+Qed.
+
+Theorem early_timeout_cut m n ps i :
+  spec_page m n (with_timeout i ps) = PoErr e_timeout \/
+  spec_page m n (with_timeout i ps) = spec_page m n ps.
+Proof.
+  destruct m; cbn [spec_page with_timeout ps_faults ps_resp].
+  - destruct n; [right; reflexivity|]. apply spec_attempts_cut.
+  - (* conn_fault is applied elementwise: cutting commutes up to the number of kept faults *)
+    assert (forall fs i, exists j, flat_map conn_fault (firstn i fs ++ [FTimeout]) =
+                                   firstn j (flat_map conn_fault fs) ++ [FTimeout]) as X.
+    { induction fs as [|f fs IH]; intros j.
+      - exists 0%nat. destruct j; reflexivity.
+      - destruct j as [|j]; [exists 0%nat; reflexivity|]. destruct (IH j) as [k E].
+        cbn [firstn app flat_map]. rewrite E.
+        destruct f as [|e d| |]; cbn [conn_fault app]; [exists k|exists (S k)|exists (S k)|exists (S k)]; reflexivity. }
+    destruct (X (ps_faults ps) i) as [j ->]. apply spec_attempts_cut.
+Qed.
+
+(* ===== part L: target identities, coordinator stability ===== *)
+Lemma existsb_In' (x : N) l : existsb (N.eqb x) l = true <-> In x l.
+Proof.
+  rewrite existsb_exists. split.
+  - intros (y & Hy & E). apply N.eqb_eq in E. subst y. exact Hy.
+  - intros H. exists x. split; [exact H|apply N.eqb_refl].
+Qed.
+
+Lemma fits_some t used : fits (Some t) used t = true.
+Proof. cbn. apply N.eqb_refl. Qed.
+Lemma fits_none used t : ~ In t used -> fits None used t = true.
+Proof. intros H. cbn. apply negb_true_iff. destruct (existsb (N.eqb t) used) eqn:E; [|reflexivity].
+  apply existsb_In' in E. contradiction. Qed.
+
+(* the fiber loop over ANY duplicate-free plan sends its attempts where [follows] says *)
+Lemma attempts_follow : forall fs resp t rest used cur,
+  NoDup (t :: rest) -> (forall x, In x (t :: rest) -> ~ In x used) ->
+  (cur = Some t \/ cur = None) ->
+  follows fs cur used (fst (attempts fs resp t rest)) = true.
+Proof.
+  induction fs as [|f fs IH]; intros resp t rest used cur Hnd Hdis Hcur.
+  - cbn. destruct Hcur as [->| ->]; [apply fits_some|apply fits_none; apply Hdis; left; reflexivity].
+  - assert (fits cur used t = true) as Hfit.
+    { destruct Hcur as [->| ->]; [apply fits_some|apply fits_none; apply Hdis; left; reflexivity]. }
+    assert (forall t' rest', rest = t' :: rest' ->
+              NoDup (t' :: rest') /\ (forall x, In x (t' :: rest') -> ~ In x (t :: used)) /\
+              (forall x, In x (t' :: rest') -> ~ In x (add_used cur used))) as Hnext.
+    { intros t' rest' ->. inversion Hnd as [|? ? Hnt Hnd']; subst. split; [exact Hnd'|]. split.
+      - intros x Hx [<-|Hu]; [exact (Hnt Hx)|]. exact (Hdis x (or_intror Hx) Hu).
+      - intros x Hx Hu. destruct Hcur as [->| ->]; cbn [add_used] in Hu.
+        + destruct Hu as [<-|Hu]; [exact (Hnt Hx)|exact (Hdis x (or_intror Hx) Hu)].
+        + exact (Hdis x (or_intror Hx) Hu). }
+    destruct f as [|e d| |]; cbn [attempts follows].
+    + destruct rest as [|t' rest']; [reflexivity|].
+      destruct (Hnext t' rest' eq_refl) as (N1 & _ & N3).
+      pose proof (IH resp t' rest' (add_used cur used) None N1 N3 (or_intror eq_refl)) as F.
+      destruct (fst (attempts fs resp t' rest')) eqn:E; [reflexivity|exact F].
+    + destruct d.
+      * destruct (attempts fs resp t rest) as [l r] eqn:E. cbn [fst]. rewrite Hfit. cbn [andb].
+        pose proof (IH resp t rest used (Some t) Hnd Hdis (or_introl eq_refl)) as F. rewrite E in F. exact F.
+      * destruct rest as [|t' rest']; cbn [fst]; [rewrite Hfit; reflexivity|].
+        destruct (attempts fs resp t' rest') as [l r] eqn:E. cbn [fst]. rewrite Hfit. cbn [andb].
+        destruct (Hnext t' rest' eq_refl) as (N1 & N2 & _).
+        pose proof (IH resp t' rest' (t :: used) None N1 N2 (or_intror eq_refl)) as F. rewrite E in F.
+        cbn [fst] in F. destruct l; [reflexivity|exact F].
+      * cbn [fst]. exact Hfit.
+      * cbn [fst]. exact Hfit.
+    + cbn [fst]. exact Hfit.
+    + destruct (attempts fs resp t rest) as [l r] eqn:E. cbn [fst]. rewrite Hfit. cbn [andb].
+      pose proof (IH resp t rest used (Some t) Hnd Hdis (or_introl eq_refl)) as F. rewrite E in F. exact F.
+Qed.
+
+Lemma NoDup_filter {A} (f : A -> bool) l : NoDup l -> NoDup (filter f l).
+Proof.
+  induction 1 as [|x l Hx Hnd IH]; cbn [filter]; [constructor|].
+  destruct (f x); [|exact IH]. constructor; [|exact IH]. intros H. apply filter_In in H. tauto.
+Qed.
+
+Lemma eff_plan_NoDup stable base : NoDup base -> NoDup (eff_plan stable base).
+Proof.
+  intros H. destruct stable as [c|]; cbn [eff_plan]; [|exact H]. constructor.
+  - intros Hin. apply filter_In in Hin as [_ E]. rewrite N.eqb_refl in E. discriminate.
+  - apply NoDup_filter. exact H.
+Qed.
+
+Lemma fetch_follows stable ps : NoDup (ps_plan ps) -> ps_plan ps <> [] ->
+  follows (ps_faults ps) stable [] (fst (fetch_one MSession stable ps)) = true.
+Proof.
+  intros Hnd Hne. cbn [fetch_one]. pose proof (eff_plan_NoDup stable _ Hnd) as He.
+  destruct (eff_plan stable (ps_plan ps)) as [|t rest] eqn:E.
+  - destruct stable; cbn [eff_plan] in E; [discriminate|contradiction].
+  - apply attempts_follow; [exact He|intros x _ []|].
+    destruct stable as [c|]; [left; cbn [eff_plan] in E; injection E as <- _; reflexivity|right; reflexivity].
+Qed.
+
+Lemma attempts_last : forall fs resp t rest ts c r,
+  attempts fs resp t rest = (ts, FCompleted c r) -> last_opt ts = Some c.
+Proof.
+  induction fs as [|f fs IH]; intros resp t rest ts c r H; cbn [attempts] in H.
+  - injection H as <- <- _. reflexivity.
+  - destruct f as [|e d| |].
+    + destruct rest as [|t' rest']; [discriminate|]. eapply IH; exact H.
+    + destruct d; try discriminate.
+      * destruct (attempts fs resp t rest) as [l x] eqn:E. injection H as <- ->.
+        pose proof (IH _ _ _ _ _ _ E) as L. destruct l; [discriminate|exact L].
+      * destruct rest as [|t' rest']; [discriminate|].
+        destruct (attempts fs resp t' rest') as [l x] eqn:E. injection H as <- ->.
+        pose proof (IH _ _ _ _ _ _ E) as L. destruct l; [discriminate|exact L].
+    + discriminate.
+    + destruct (attempts fs resp t rest) as [l x] eqn:E. injection H as <- ->.
+      pose proof (IH _ _ _ _ _ _ E) as L. destruct l; [discriminate|exact L].
+Qed.
+
+Lemma fetch_last stable ps ts c r : fetch_one MSession stable ps = (ts, FCompleted c r) ->
+  last_opt ts = Some c.
+Proof.
+  cbn [fetch_one]. destruct (eff_plan stable (ps_plan ps)); [discriminate|]. apply attempts_last.
+Qed.
+
+Definition plan_fine (ps : pscript) : Prop := NoDup (ps_plan ps) /\ ps_plan ps <> [].
+
+(* for EVERY plan oracle (duplicate-free, non-empty plans) the requests of the model go where
+   coordinator stability says: page i+1 starts at the node that answered page i, RetrySameTarget
+   and a re-prepare stay, RetryNextTarget / an unavailable connection move to an unused target *)
+Theorem coord_thm : forall script stable, Forall plan_fine script ->
+  coord_ok stable script (worker_targets stable script) = true.
+Proof.
+  induction script as [|ps rest IH]; intros stable Hf; [reflexivity|].
+  inversion Hf as [|? ? [Hnd Hne] Hf']; subst. cbn [worker_targets].
+  pose proof (fetch_follows stable ps Hnd Hne) as F.
+  destruct (fetch_one MSession stable ps) as [ts r] eqn:E. cbn [fst] in F.
+  destruct r as [c [rows [st'|]| |]|c|e]; cbn [coord_ok]; rewrite F; cbn [andb]; try reflexivity.
+  rewrite (fetch_last _ _ _ _ _ E). apply IH. exact Hf'.
+Qed.
+
+(* [seq_targets] are the targets of the requests of [seq_run], page by page *)
+Definition tag_page (ip : nat * list N) : list (nat * N) := map (pair (fst ip)) (snd ip).
+
+Lemma worker_targets_reqs : forall rest i st stable,
+  flat_map tag_page (enumerate_from i (worker_targets stable rest)) =
+  map (fun r => (rq_page r, rq_target r)) (fst (worker MSession i st stable rest)).
+Proof.
+  induction rest as [|ps rest IH]; intros i st stable; [reflexivity|].
+  cbn [worker_targets worker]. destruct (fetch_one MSession stable ps) as [ts r].
+  assert (map (fun r0 => (rq_page r0, rq_target r0)) (map (mk_req i (Some st)) ts) = map (pair i) ts) as Hm
+    by (rewrite map_map; reflexivity).
+  destruct r as [c [rows [st'|]| |]|c|e]; cbn [enumerate_from flat_map tag_page fst snd];
+    rewrite ?app_nil_r; try (symmetry; exact Hm).
+  specialize (IH (S i) st' (Some c)). destruct (worker MSession (S i) st' (Some c) rest) as [rq' ms].
+  cbn [fst] in *. rewrite map_app, Hm, IH. reflexivity.
+Qed.
+
+Theorem seq_targets_reqs script : (exists rows p rq0, start MSession script = (rq0, SPager rows p)) ->
+  flat_map tag_page (enumerate_from 0 (seq_targets script)) =
+  map (fun r => (rq_page r, rq_target r)) (fst (seq_run MSession script)).
+Proof.
+  intros (rows & p & rq0 & Hst). unfold seq_targets, seq_run. rewrite Hst.
+  destruct script as [|ps rest]; [discriminate|]. cbn [start worker_targets] in *.
+  destruct (fetch_one MSession None ps) as [ts r].
+  assert (map (fun r0 => (rq_page r0, rq_target r0)) (map (mk_req 0 None) ts) = map (pair 0%nat) ts) as Hm
+    by (rewrite map_map; reflexivity).
+  destruct r as [c [rw [st'|]| |]|c|e]; try discriminate; injection Hst as <- _ <-;
+    cbn [pfuture enumerate_from flat_map tag_page fst snd]; rewrite ?app_nil_r, ?map_app;
+    try (symmetry; exact Hm).
+  pose proof (worker_targets_reqs rest 1%nat st' (Some c)) as W.
+  destruct (worker MSession 1 st' (Some c) rest) as [rq' ms]. cbn [fst] in *.
+  rewrite map_app, Hm, W. reflexivity.
+Qed.
+
+(* ===== part M: single page with a caller-supplied paging state ===== *)
+Theorem single_thm nodes st ps : NoDup nodes -> page_ok nodes ps ->
+  (forall k, In k (fst (single_run st ps)) -> k = (0%nat, st)) /\
+  match single_expected (List.length nodes) ps with
+  | PoResp r => exists c, snd (single_run st ps) = FCompleted c r
+  | PoErr e => snd (single_run st ps) = FFailed e
+  | PoIgnored e => exists c, snd (single_run st ps) = FIgnored c
+  end.
+Proof.
+  intros Hn Hp. unfold single_run, single_expected.
+  pose proof (fetch_spec MSession nodes None ps Hn Hp (or_intror I)) as F.
+  destruct (fetch_one MSession None ps) as [ts r]. cbn [fst snd]. split.
+  - intros k Hk. apply in_map_iff in Hk as (t & <- & _). reflexivity.
+  - destruct (spec_page MSession (List.length nodes) ps).
+    + destruct F as (ts' & c & E & _). injection E as _ ->. eauto.
+    + destruct F as (ts' & E). injection E as _ ->. reflexivity.
+    + destruct F as (ts' & c & E). injection E as _ ->. eauto.
+Qed.
